@@ -5,6 +5,7 @@ Bytes: a = 97, b = 98, c = 99, x = 120, y = 121, '/' = 47, '.' = 46, "1" = 49, "
 -/
 import Goat.Proofs.CacheMore
 import Goat.Proofs.CacheHist
+import Goat.Proofs.CacheOrder
 
 namespace Goat
 namespace Cache
